@@ -224,11 +224,19 @@ type End struct {
 	in, out *stream
 	name    string
 
-	cmu      sync.Mutex
-	closed   bool
-	closedAt time.Time
-	closes   int
-	closeLag time.Duration
+	cmu        sync.Mutex
+	closed     bool
+	closedAt   time.Time
+	closes     int
+	closeLag   time.Duration
+	closeDelay time.Duration
+}
+
+// SetCloseDelay makes Close itself take d before it returns (a TLS close_notify on a slow link).
+func (e *End) SetCloseDelay(d time.Duration) {
+	e.cmu.Lock()
+	e.closeDelay = d
+	e.cmu.Unlock()
 }
 
 // SetCloseLag makes this end behave like a transport whose Close does not
@@ -274,8 +282,11 @@ func (e *End) Close() error {
 	}
 	e.closed = true
 	e.closedAt = time.Now()
-	lag := e.closeLag
+	lag, delay := e.closeLag, e.closeDelay
 	e.cmu.Unlock()
+	if delay > 0 {
+		time.Sleep(delay)
+	}
 	if lag > 0 {
 		until := e.closedAt.Add(lag)
 		e.out.mu.Lock()
